@@ -717,6 +717,7 @@ func TestVerifC20(t *testing.T) {
 			t.Fatalf("c20: stored case %s: %v", sc.ID, err)
 		}
 		out.Emit(vfCase{ID: sc.ID, Src: sc.Src, Grp: "sup", In: in, Obs: c20Run(t, in)})
+		out.w.Flush() // a panic escaping in a goroutine kills the binary: keep what was observed so far
 	}
 	if vfReplayOnly() {
 		return
@@ -735,5 +736,6 @@ func TestVerifC20(t *testing.T) {
 			in.Mode = 1
 		}
 		out.Emit(vfCase{ID: fmt.Sprintf("sup-%d-%d", vfSeed(), i), Src: src, Grp: "sup", In: in, Obs: c20Run(t, in)})
+		out.w.Flush() // a panic escaping in a goroutine kills the binary: keep what was observed so far
 	}
 }
